@@ -10,7 +10,10 @@ D=$SRC/demo$K; ls $D/*_test.go >/dev/null 2>&1 || D=$(dirname $(ls $SRC/demo$K/*
 T=$(ls $D/*_test.go | head -1); PKG=$(grep -m1 "^package " $T | awk '{print $2}' | sed 's/_test$//')
 [ -n "$WHERE" ] || WHERE=$PKG
 NEW=0; [ -d $WT/$WHERE ] || NEW=1
-run_demo() { mkdir -p $WT/$WHERE && cp $D/*_test.go $WT/$WHERE/ && (cd $WT && go test -tags verif -mod=mod -vet=off -count=1 ./$WHERE/ >/tmp/vm-$1-$K.out 2>&1); rc=$?
+# BUILD_VGW=1: the demonstration drives a gateway binary named by $VGW, built from the worktree in its current state
+run_demo() { if [ -n "$BUILD_VGW" ]; then VGW=$(mktemp -d)/vgw; export VGW; (cd $WT && go build -o $VGW ./cmd/versitygw) || return 99; fi
+             mkdir -p $WT/$WHERE && cp $D/*_test.go $WT/$WHERE/ && (cd $WT && go test -tags verif -mod=mod -vet=off -count=1 ./$WHERE/ >/tmp/vm-$1-$K.out 2>&1); rc=$?
+             [ -n "$BUILD_VGW" ] && rm -rf $(dirname $VGW)
              if [ $NEW = 1 ]; then rm -rf $WT/$WHERE; else for f in $D/*_test.go; do rm -f $WT/$WHERE/$(basename $f); done; fi; return $rc; }
 run_demo $1 $K; R0=$?
 (cd $WT && git apply $SRC/patch$K.diff) || { echo "patch does not apply"; git -C /repo worktree remove --force $WT; exit 1; }
